@@ -6,9 +6,15 @@
    (the OS honours SetRead/WriteDeadline - this is what the measured half of
    C13 checks) and reports success only if the reply arrived before that.
 
-   cenkalti/backoff v4: after a failed attempt, backOffContext.NextBackOff
-   returns Stop if the context is done or if the time left to the deadline is
-   less than the next sleep; otherwise Retry sleeps (select on ctx.Done()). *)
+   cenkalti/backoff v4.3.0 (the version go.mod pins; retry.go doRetryNotify,
+   context.go): after a failed attempt, backOffContext.NextBackOff returns Stop
+   if the context is done; otherwise Retry starts a timer for the sleep and
+   selects on ctx.Done() and the timer - so a sleep that would pass the deadline
+   is cut short AT the deadline and the call returns the context's error then.
+   (Earlier v4 releases gave up before a sleep that did not fit; an earlier
+   version of this model had that rule.  The correspondence run of C13 now
+   compares this model's end time and attempt count with the library over real
+   sockets, which is how the difference was noticed.) *)
 From BMC Require Import Base.
 From Coq Require Import ZifyN ZifyNat ZifyBool.
 Ltac Zify.zify_post_hook ::= Z.div_mod_to_equations.
@@ -29,7 +35,7 @@ Fixpoint retry (t D T : N) (atts : list attempt) (sleeps : list N) : call_result
       else match sleeps with
            | [] => {| cr_end := t1; cr_ok := false; cr_attempts := 1 |}
            | s :: srest =>
-               if D - t1 <? s then {| cr_end := t1; cr_ok := false; cr_attempts := 1 |}   (* NextBackOff = Stop *)
+               if D <=? t1 + s then {| cr_end := D; cr_ok := false; cr_attempts := 1 |}   (* ctx.Done() wins the select *)
                else let r := retry (t1 + s) D T rest srest in
                     {| cr_end := cr_end r; cr_ok := cr_ok r; cr_attempts := S (cr_attempts r) |}
            end
@@ -44,7 +50,7 @@ Proof.
   destruct (valid && (d <=? window))%bool; cbn [cr_end]; [exact H1|].
   destruct (N.leb_spec D t1); cbn [cr_end]; [exact H1|].
   destruct sleeps as [|s srest]; cbn [cr_end]; [exact H1|].
-  destruct (N.ltb_spec (D - t1) s); cbn [cr_end]; [exact H1|].
+  destruct (N.leb_spec D (t1 + s)); cbn [cr_end]; [lia|].
   specialize (IH srest (t1 + s) D T). lia.
 Qed.
 
@@ -72,7 +78,7 @@ Proof.
   - intros _. apply andb_true_iff in E. destruct E as [-> E]. exists d. split; [left; reflexivity|]. subst window. lia.
   - destruct (D <=? t1); cbn [cr_ok]; [discriminate|].
     destruct sleeps as [|s srest]; cbn [cr_ok]; [discriminate|].
-    destruct (D - t1 <? s); cbn [cr_ok]; [discriminate|].
+    destruct (D <=? t1 + s); cbn [cr_ok]; [discriminate|].
     intros H. destruct (IH _ _ _ _ H) as [d' [Hin Hd]]. exists d'. split; [right; exact Hin|exact Hd].
 Qed.
 
@@ -94,7 +100,7 @@ Proof.
   destruct (valid && (d <=? window))%bool; cbn [cr_attempts]; [exact Small|].
   destruct (N.leb_spec D t1); cbn [cr_attempts]; [exact Small|].
   destruct sleeps as [|s srest]; cbn [cr_attempts]; [exact Small|].
-  destruct (N.ltb_spec (D - t1) s); cbn [cr_attempts]; [exact Small|].
+  destruct (N.leb_spec D (t1 + s)); cbn [cr_attempts]; [exact Small|].
   inversion Hall as [|? ? Hs1 Hrest]; subst.
   assert (Ht1 : t <= t1) by (subst t1; lia).
   specialize (IH srest (t1 + s) D T smin Hs Hrest ltac:(lia)).
@@ -104,8 +110,8 @@ Proof.
   rewrite Nat2N.inj_succ. lia.
 Qed.
 
-(* non-vacuity: a black hole with a 3.5 x timeout deadline: attempts until the next sleep would overshoot *)
+(* non-vacuity: a black hole with a 3.5 x timeout deadline: the second sleep is cut short at the deadline *)
 Example retry_blackhole :
   let r := retry 0 350 100 [(1000, false); (1000, false); (1000, false)] [100; 150; 200] in
-  cr_end r = 300 /\ cr_ok r = false /\ cr_attempts r = 2%nat.
+  cr_end r = 350 /\ cr_ok r = false /\ cr_attempts r = 2%nat.
 Proof. vm_compute. repeat split. Qed.
